@@ -101,6 +101,10 @@ pub struct Place {
     /// Markdown comment forms on one line: put the comment inside a container (0 none, 1 `> `, 2 `- `, 3 `1. `, 4 `> - `)
     #[serde(default)]
     pub container: u8,
+    /// no separating blank between this tag (and its noise) and what precedes it in the same comment
+    /// (`</block><block>`, `text<block>`)
+    #[serde(default)]
+    pub glue: bool,
 }
 
 #[derive(Clone, Debug, Serialize, Deserialize, Hash, PartialEq, Eq)]
@@ -356,6 +360,8 @@ enum Part {
     Start(StartTag),
     End(usize),
     Newline,
+    /// the next part follows without a separating blank
+    Glue,
 }
 
 struct CommentSeg {
@@ -445,16 +451,25 @@ pub fn build_raw(lang: &Lang, events: &[Ev], crlf: bool) -> Built {
                 let part_for = |form: Form| -> Vec<Part> {
                     let multi = matches!(form, Form::Block | Form::MdHtml);
                     let mut ps = vec![];
+                    if place.glue {
+                        ps.push(Part::Glue);
+                    }
                     if place.pre != 0 {
                         ps.push(Part::Text(sanitise_text(lang, form, NOISE[place.pre as usize % NOISE.len()])));
                     }
                     if multi && place.nl_before {
                         ps.push(Part::Newline);
                     }
+                    if place.glue {
+                        ps.push(Part::Glue);
+                    }
                     match e {
                         Ev::Open { tag, .. } => ps.push(Part::Start(sanitise_tag(lang, form, tag, multi))),
                         Ev::Close { spelling, .. } => ps.push(Part::End(*spelling as usize % END_SPELLINGS.len())),
                         _ => unreachable!(),
+                    }
+                    if place.glue {
+                        ps.push(Part::Glue);
                     }
                     if multi && place.nl_after {
                         ps.push(Part::Newline);
@@ -587,6 +602,9 @@ pub fn build_raw(lang: &Lang, events: &[Ev], crlf: bool) -> Built {
                 let mut first = true;
                 for p in &c.parts {
                     match p {
+                        Part::Glue => {
+                            first = true;
+                        }
                         Part::Newline => {
                             out.push_str(&cont);
                             had_nl = true;
@@ -724,10 +742,9 @@ pub fn place_strategy() -> BoxedStrategy<Place> {
         proptest::bool::weighted(0.25),
         any::<bool>(),
         prop_oneof![3 => Just(0u8), 1 => 0u8..9],
-        proptest::bool::weighted(0.2),
-        prop_oneof![4 => Just(0u8), 1 => 1u8..5],
+        (proptest::bool::weighted(0.2), prop_oneof![4 => Just(0u8), 1 => 1u8..5], proptest::bool::weighted(0.2)),
     )
-        .prop_map(|(form, join, lead, trail, pre, post, nl_before, nl_after, star, indent, doc, container)| Place { form, join, lead, trail, pre, post, nl_before, nl_after, star, indent, doc, container })
+        .prop_map(|(form, join, lead, trail, pre, post, nl_before, nl_after, star, indent, (doc, container, glue))| Place { form, join, lead, trail, pre, post, nl_before, nl_after, star, indent, doc, container, glue })
         .boxed()
 }
 
